@@ -209,6 +209,8 @@ def machine_factory(ctx):
                     raise
 
         def do(self, op):
+            if getattr(self, 'dead', False):
+                return
             self.ensure()
             self.case['ops'].append(op)
             try:
@@ -217,6 +219,7 @@ def machine_factory(ctx):
                 v.case = dict(self.case, ops=list(self.case['ops']))
                 if ctx.should_raise(v, v.case):
                     raise
+                self.dead = True
 
         @rule(p=params)
         def create(self, p):
